@@ -151,7 +151,12 @@ class C08(C02):
                 canary = "CNRY%sx%d" % (cfg["run_tag"], n)
                 text = "please change the file, ref %s" % canary
                 if cfg.get("tokens") and rng.random() < 0.6:
-                    text += " using token %s ok" % rng.choice(VETTED)
+                    tok = rng.choice(VETTED)
+                    text += " using token %s ok" % tok
+                    if rng.random() < 0.5:
+                        # the same credential a second time in the same message (the export line and the command using it)
+                        text += " then run curl -H 'Authorization: Bearer %s' and a second one %s end" % (tok, rng.choice(VETTED))
+                        ex.probe("token.repeated")
                 op["transcript"] = [{"type": "user", "text": text},
                                     {"type": "assistant", "text": "done %s-reply" % canary}]
                 if cfg.get("agent_kind") == "claude":
